@@ -248,3 +248,41 @@ package decoder
 //@ returns-sorted (*decoder.PathDecoder).CollectReferenceOrigins C10
 //@ returns-sorted (*decoder.PathDecoder).symbolsForBody C14
 //@ returns-sorted (*decoder.Decoder).ReferenceOriginsTargetingPos C11
+
+// ---- C11: go-to-definition resolves an origin against the declarations of the path the origin points to:
+// ---- its own path, or - for an origin into another path - that path's context and nothing else.
+//@ contract (*decoder.Decoder).ReferenceTargetsForOriginAtPos (d, path, file, pos) (result, err)
+//@   assert before (reference.Targets).Match#1 : [C11] implies(!typeis(origin, "reference.PathOrigin"), targetCtx == pathCtx && targetPath == path)
+//@   assert before (reference.Targets).Match#1 : [C11] implies(typeis(origin, "reference.PathOrigin"), targetPath == as(origin, "reference.PathOrigin").TargetPath)
+//@   assert before (reference.Targets).Match#1 : [C11] arg0 == targetCtx.ReferenceTargets
+
+// ---- C13/C10: like hover, tokens and origins of an object item come from the schema declared under that
+// ---- item's own key, applied to that item's own value.
+//@ contract (decoder.Object).SemanticTokens (obj, ctx) (result)
+//@   assert before decoder.newExpression#2 : [C13] isRawKey && haskey(obj.cons.Attributes, attrName) && arg1 == item.ValueExpr && arg2 == obj.cons.Attributes[attrName].Constraint
+//@ contract (decoder.Object).ReferenceOrigins (obj, ctx) (result)
+//@   assert before decoder.newExpression#2 : [C10] isRawKey && haskey(obj.cons.Attributes, attrName) && arg1 == item.Value && arg2 == obj.cons.Attributes[attrName].Constraint
+
+// ---- C08/C06: which element is being completed. The scan over the written elements goes on only past
+// ---- elements that start at or before the cursor and neither contain it nor end at it; the first element
+// ---- that does is the one handed on.
+//@ contract (decoder.List).CompletionAtPos (list, ctx, pos) (result)
+//@   loop 1 iter [C08] elemExpr.Range().Start.Byte <= pos.Byte && !(elemExpr.Range().ContainsPos(pos) || elemExpr.Range().End.Byte == pos.Byte)
+//@ contract (decoder.Set).CompletionAtPos (set, ctx, pos) (result)
+//@   loop 1 iter [C08] elemExpr.Range().Start.Byte <= pos.Byte && !(elemExpr.Range().ContainsPos(pos) || elemExpr.Range().End.Byte == pos.Byte)
+//@ contract (decoder.Tuple).CompletionAtPos (tuple, ctx, pos) (result)
+//@   assert before decoder.newExpression#2 : [C08] arg1 == elemExpr && arg2 == tuple.cons.Elems[i]
+//@   assert before decoder.newExpression#3 : [C08] arg1 == elemExpr && arg2 == tuple.cons.Elems[i]
+//@   loop 2 iter [C08] elemExpr.Range().Start.Byte <= pos.Byte && !(elemExpr.Range().ContainsPos(pos) || elemExpr.Range().End.Byte == pos.Byte)
+//@ contract (decoder.functionExpr).CompletionAtPos (fe, ctx, pos) (result)
+//@   loop 1 iter [C08] arg.Range().Start.Byte <= pos.Byte && !(arg.Range().ContainsPos(pos) || arg.Range().End.Byte == pos.Byte)
+
+// ---- C10/C12/C13: the i-th element of a tuple is interpreted with the i-th element constraint.
+//@ contract (decoder.Tuple).HoverAtPos (tuple, ctx, pos) (result)
+//@   requires [C12] tuple.expr.Range().ContainsPos(pos)
+//@   ensures [C12] result == nil || (result.Range.ContainsPos(pos) && len(result.Content.Value) > 0)
+//@   assert before decoder.newExpression#1 : [C12] arg1 == elemExpr && arg2 == tuple.cons.Elems[i]
+//@ contract (decoder.Tuple).SemanticTokens (tuple, ctx) (result)
+//@   assert before decoder.newExpression#1 : [C13] arg1 == elemExpr && arg2 == tuple.cons.Elems[i]
+//@ contract (decoder.Tuple).ReferenceOrigins (tuple, ctx) (result)
+//@   assert before decoder.newExpression#1 : [C10] arg1 == elemExpr && arg2 == tuple.cons.Elems[i]
